@@ -57,8 +57,17 @@ impl idlc_codegen::Generator for Generator {
                             .get_mut(&base)
                             .unwrap()
                             .push_str(&interface_content);
-                    } else {
-                        interfaces.insert(name.into(), format!("{prologue}{interface_content}"));
+                    } else if interfaces
+                        .insert(
+                            name.as_str().into(),
+                            format!("{prologue}{interface_content}"),
+                        )
+                        .is_some()
+                    {
+                        idlc_errors::unrecoverable!(
+                            "Interface `{}` is written to `{name}`, which another interface of this file already uses",
+                            i.ident
+                        );
                     }
                 }
                 _ => (),
